@@ -24,16 +24,16 @@ CHECKS = {
    text="All strings up to length 6 (quick) / 7 (thorough) over an 11-symbol class-representative alphabet (incl. a non-ASCII letter and a Unicode numeric) as single segments, all segment lists up to length 3 over a 40-string pool, Path::new over 40x1649 (ident, module) pairs and seeded replacement tables are run through Path::from_segments/new/new_with_replace and compared with a DFA oracle, including the index of the first offending segment and ident/namespace/display of the result; segments are fed through iterators with exact / inexact / no size hint, and the whole workload runs a second time in a build profile without debug assertions.",
    note="Exhaustive only within the stated alphabet and length bound; replacement tables are sampled."),
  "C01": dict(level="exploration", design="5/C01", technique="invariant walker (dense + closed) at quiescent points over every registry produced by registration histories, the runtime builder, retain and decode; hook invariants after every operation",
-   text="Every registry handed out during seeded registration histories over a compiled-in type corpus (in place after each op, frozen, prefixes, after decode / JSON round trip, after retain) and by PortableRegistryBuilder histories is walked: entry i carries id i, resolve(i) is that entry, every mentioned id at every reference position resolves. Registry/interner structural hooks run after every op.",
+   text="Every registry handed out during seeded registration histories over a compiled-in type corpus (in place after each op, frozen, prefixes, after decode / JSON round trip, after retain) and by PortableRegistryBuilder histories is walked: entry i carries id i, resolve(i) is that entry, every mentioned id at every reference position resolves. Registry/interner structural hooks run after every op. A RegGen-based retain producer, a 16 400-entry registry through every producer and a second (smaller) pass in a build without debug assertions are included.",
    note="For builder histories closure is required only for disciplined histories (ids handed out earlier or announced by next_type_id); density always."),
  "C02": dict(level="exploration", design="5/C02", technique="coinductive bisimulation monitor between type_info() graphs and the portable registry, from every root of every history; child-process boundary for non-termination",
-   text="For every root of every history (and every map_into_portable output) the harness evaluates type_info() itself and compares it with what the returned id resolves to: path, parameter names and skipped pattern, field names/order/type names/docs, variant names/indices/docs, array lengths, recursing into each referenced type against the id at the same position; one type identity must pair with exactly one id. Cyclic, mutually recursive and parameter-only-cyclic hand-written types are in the core corpus.",
+   text="For every root of every history (and every map_into_portable output) the harness evaluates type_info() itself and compares it with what the returned id resolves to: path, parameter names and skipped pattern, field names/order/type names/docs, variant names/indices/docs, array lengths, recursing into each referenced type against the id at the same position; one type identity must pair with exactly one id. Cyclic, mutually recursive and parameter-only-cyclic hand-written types, a hand-written named primitive and 40 ... 300-level nestings are in the core corpus; the coinduction is keyed on (identity, definition); a second pass runs without debug assertions.",
    note="Independent of IntoPortable. A crash while registering is a violation (termination is promised); a watchdog timeout is inconclusive."),
  "C05": dict(level="exploration", design="5/C05", technique="history monitors: re-registration leaves snapshot unchanged; ids vs generator-computed canonical identities over all root pairs; entry count vs independent reachability walk; per-type evaluation counters + hook store-once events",
-   text="Over seeded histories with forced repetition and alias-first / target-first orders: registering a present type changes nothing; types equal up to transparent wrappers / Vec-slice / String-str / PhantomData share an id, types whose deep canonical identity differs never do; entries == distinct reachable identities; instrumented hand-written types and the DefStore hook show at most one evaluation per identity per registry.",
+   text="Over seeded histories with forced repetition and alias-first / target-first orders: registering a present type changes nothing; types equal up to transparent wrappers / Vec-slice / String-str / PhantomData share an id, types whose deep canonical identity differs never do; entries == distinct reachable identities; instrumented hand-written types and the DefStore hook show at most one evaluation per identity per registry; the frozen registry is judged too (entry count, every handed-out id, retain(all)); twins, corpus neighbours and constructor siblings are steered into one history; a second pass runs without debug assertions.",
    note="Pairs that differ only by an alias inside a generic argument (Vec<Box<u8>> vs Vec<u8>) are asserted neither way."),
  "C11": dict(level="exploration", design="5/C11", technique="prefix monitor over snapshots after every operation, replay and cross-process determinism digests, constructed id-bijection for permuted roots, hook append-only monitor",
-   text="Each snapshot is an entry-for-entry prefix of the next; every id ever returned still resolves to the definition it had; replaying a history (same process and two separate processes) gives identical bytes; registering the same roots in 3 random other orders gives a registry for which an id bijection is constructed from the roots and checked total, injective and content preserving.",
+   text="Each snapshot is an entry-for-entry prefix of the next; every id ever returned still resolves to the definition it had; replaying a history (same process and two separate processes) gives identical bytes; registering the same roots in 3 random other orders gives a registry for which an id bijection is constructed from the roots and checked total, injective and content preserving; one history in eight is also replayed on a fresh thread; a second pass runs without debug assertions.",
    note="Numbering order itself is never pinned."),
  "C14": dict(level="fault_enumeration", design="5/C14", technique="fault-injection monitor: all truncations and all single-bit flips (plus insert/delete/slot-overwrite classes) of valid encodings through decode under catch_unwind, a counting allocator, re-encode/resolve oracles; ASan and Miri slices in the thorough tier",
    text="For every base input all truncations, all single-bit flips, every byte insert/delete/duplicate position and every length/id/option/tag slot x 17 hostile encodings are decoded; plus splices, random bytes, fault sequences, lying nested lengths and JSON truncation/byte/structural faults. Observed per input (slice input; a slice of them also through a streaming input): panic (catch_unwind), abort/signal (child process), peak heap <= 128*len+256KiB, accepted => re-encodes to exactly the consumed bytes, resolve answers none out of range. Thorough adds the same workload under AddressSanitizer and a Miri slice.",
@@ -63,7 +63,7 @@ CHECKS = {
    text="The generator keeps the AST of every definition it writes (nested and raw-named modules, raw identifiers, generics with bounds/defaults/const/lifetimes, replace_segment, skip_type_params, rename, compact, skip, PhantomData, docs in both syntaxes with 0/1/2 leading spaces and hostile content, all capture_docs values) and emits the expected metadata by the rules of C09; the harness is built twice (docs off/on) and every instantiation is compared.",
    note="encoded_as members: the type id is not asserted (C09 does not settle it); chained replace_segment rules, block comments, macro-generated types are outside the grammar."),
  "C16": dict(level="exploration", design="5/C16", technique="all-pairs monitor over the corpus: ==/cmp/hash of MetaType vs declared identity taken from the trait; coherence of definitions and registration order inside identity classes; transitivity on triples",
-   text="For every ordered pair of ~480 corpus types: a==b iff TypeId::of::<Identity> equal (computed in the harness from the trait), cmp Equal iff ==, antisymmetry, partial_cmp, equal => equal hashes, type_id() is the declared identity; within each identity class all type_info() are equal and registering in either order gives the same registry; transitivity over 150^3 triples; sort from two initial orders agrees.",
+   text="For every ordered pair of ~480 corpus types: a==b iff TypeId::of::<Identity> equal (computed in the harness from the trait), cmp Equal iff ==, antisymmetry, partial_cmp, equal => equal hashes, type_id() is the declared identity; within each identity class all type_info() are equal and registering in either order gives the same registry; transitivity over 150^3 triples; sort from two initial orders agrees. The whole comparison runs a second time in an optimised build (opt-level 2, no debug assertions: merged functions).",
    note="Sampled over the generated corpus only."),
 }
 
